@@ -106,6 +106,6 @@ package parser
 //@ at call append #7 before assert trimRightTag: arg1[0].Type == TrimRightTokenType && arg1[0].Source == ""
 //@ at call append #8 before assert tail: arg1[0].Type == TextTokenType
 //@ loop 1 invariant pos: cov == p && 0 <= p && p <= len(data) && !pendingL && pe == len(data)
-//@ loop 1 invariant ordered: _i > 0 ==> _r[_i-1][1] <= p
+//@ loop 1 invariant ordered: p == ite(_i > 0, _r[_i-1][1], 0)
 //@ loop 1 invariant line: loc.LineNo == loc0.LineNo + count(substr(data, 0, p), '\n') && loc.Pathname == loc0.Pathname
 //@ ensures partition: cov == len(data)
